@@ -410,6 +410,11 @@ fn c18(args: &Args, report: &Arc<Mutex<Report>>, wd: &Watchdog) {
         }
     }
 
+    // ---- legacy capability API: ids shared with the command API, clear semantics -------------------
+    if args.worker == 0 {
+        legacy_timers(report, wd, &mut ids);
+    }
+
     // ---- ids handed out concurrently are unique ----------------------------------------------
     let per_thread = if args.thorough() { 20_000 } else { 2_000 };
     let collected: Vec<Vec<usize>> = std::thread::scope(|s| {
@@ -447,6 +452,103 @@ fn c18(args: &Args, report: &Arc<Mutex<Report>>, wd: &Watchdog) {
         }
     }
     r.count("distinct_timer_ids_seen", ids.len() as u64);
+}
+
+/// Legacy API: every sequence of {clear, shell fires} up to length 4 after starting a timer, for
+/// notify_after and notify_at: unique ids (in the same ledger as the command API's), exactly one
+/// Clear notification per clear call, at most one outcome, completed only if answered and not
+/// cleared before, cleared only if cleared.
+fn legacy_timers(report: &Arc<Mutex<Report>>, wd: &Watchdog, ids: &mut HashSet<usize>) {
+    use caplab::app::{Api, Job, Outcome, TimeJob, TimeOut};
+    use caplab::drive::{Op, Resp, Shell, TypedShell};
+    wd.begin(|| json!({"lane": "timelab-legacy"}).to_string());
+    let mut shell = TypedShell::<caplab::app::AppD>::new("Core(derive)");
+    for len in 0..=4u32 {
+        for code in 0..(1u32 << len) {
+            for after in [true, false] {
+                let seq: Vec<bool> = (0..len).map(|i| code & (1 << i) != 0).collect(); // true = clear, false = fire
+                let res = vcommon::trap(|| -> Result<(), (String, String)> {
+                    let before = shell.log().map_err(|e| ("legacy/call-failed".to_string(), e))?.len();
+                    let job = if after { TimeJob::NotifyAfterNanos(5) } else { TimeJob::NotifyAtSecs(1_700_000_000, 0) };
+                    let reqs = shell.send(&Job::Time(Api::Legacy, job)).map_err(|e| ("legacy/call-failed".to_string(), e))?;
+                    let (h, id) = match &reqs[..] {
+                        [(h, Op::Time(TimeRequest::NotifyAfter { id, .. }))] | [(h, Op::Time(TimeRequest::NotifyAt { id, .. }))] => (*h, *id),
+                        other => return Err(("legacy/not-exactly-one-timer-request".into(), format!("{other:?}"))),
+                    };
+                    if !ids.insert(id.0) {
+                        return Err(("timer/id-reused".into(), format!("legacy timer got id {} which another timer in this process has", id.0)));
+                    }
+                    let mut cleared = false;
+                    let mut answered = false;
+                    let mut expect: Option<bool> = None; // Some(true) = completed
+                    for is_clear in &seq {
+                        if *is_clear {
+                            let e = shell.send(&Job::Time(Api::Legacy, TimeJob::Clear(id.0 as u64))).map_err(|e| ("legacy/call-failed".to_string(), e))?;
+                            let clears = e.iter().filter(|(_, op)| matches!(op, Op::Time(TimeRequest::Clear { id: c }) if *c == id)).count();
+                            if clears != 1 || e.len() != 1 {
+                                return Err(("legacy/not-exactly-one-clear-notification".into(), format!("{e:?}")));
+                            }
+                            if !answered {
+                                cleared = true;
+                            }
+                        } else {
+                            let resp = if after { TimeResponse::DurationElapsed { id } } else { TimeResponse::InstantArrived { id } };
+                            let r = shell.respond(h, Resp::Time(resp));
+                            if !answered {
+                                answered = true;
+                                expect = Some(!cleared);
+                                r.map_err(|e| ("legacy/first-answer-rejected".to_string(), e))?;
+                            } else if r.is_ok() {
+                                return Err(("legacy/second-answer-accepted".into(), String::new()));
+                            }
+                        }
+                    }
+                    let log = shell.log().map_err(|e| ("legacy/call-failed".to_string(), e))?;
+                    let outs: Vec<&Outcome> = log[before..].iter().collect();
+                    let got: Vec<bool> = outs
+                        .iter()
+                        .filter_map(|o| match o {
+                            Outcome::Time(TimeOut::Completed(i)) if *i == id.0 as u64 => Some(true),
+                            Outcome::Time(TimeOut::Cleared(i)) if *i == id.0 as u64 => Some(false),
+                            _ => None,
+                        })
+                        .collect();
+                    let want: Vec<bool> = expect.into_iter().collect();
+                    if got != want || outs.len() != want.len() {
+                        let sig = if got.len() > 1 {
+                            "legacy/second-outcome"
+                        } else if got.first() == Some(&true) && cleared {
+                            "legacy/completed-although-cleared-first"
+                        } else if got.first() == Some(&false) && !cleared {
+                            "legacy/cleared-without-app-clear"
+                        } else {
+                            "legacy/outcome-differs"
+                        };
+                        return Err((sig.into(), format!("sequence {seq:?} (true = clear): outcomes {outs:?}, expected {want:?}")));
+                    }
+                    shell.drop_request(h);
+                    Ok(())
+                });
+                let mut r = report.lock().unwrap();
+                r.eval();
+                r.count("legacy_timer_sequences", 1);
+                match res {
+                    Ok(Ok(())) => {
+                        if seq.len() >= 2 {
+                            r.nontrivial(hash_json(&(&seq, after, "legacy")));
+                        }
+                    }
+                    Ok(Err((sig, what))) => r.violation(&sig, &what, json!({"lane": "timelab-legacy", "sequence_true_is_clear": seq, "notify_after": after, "what": what})),
+                    Err(p) => {
+                        r.violation(&format!("panic/{}", vcommon::panic_site(&p)), &format!("panic in a legacy timer sequence: {p}"), json!({"lane": "timelab-legacy", "sequence_true_is_clear": seq}));
+                        drop(r);
+                        shell = TypedShell::<caplab::app::AppD>::new("Core(derive)");
+                    }
+                }
+            }
+        }
+    }
+    wd.end();
 }
 
 /// Several timers inside one `Command::all`, each followed by its own automaton
